@@ -1,9 +1,25 @@
 """C03 — validity intervals of an entity form one gap-free, open-ended chain."""
 import corebase as B
-from corebase import CHECK_MODS, CASE_TYPE, CORR, run_impl, encode, shrink  # noqa: F401
+from corebase import run_impl  # noqa: F401
 
 PROP = 'C03'
-PROPCHK = 'C03_prop'
+CHECK_MODS = list(B.CHECK_MODS) + ['Checks.C03chk']
+CASE_TYPE = 'C03_case'
+CORR, PROPCHK = 'C03c_corr', 'C03c_prop'
+
+
+def encode(case, obs):
+    return '(%s %s)' % ('C03_O' if case.get('obs_only') else 'C03_H', B.encode(case, obs))
+
+
+def shrink(case):
+    out = B.shrink(case)
+    for c in out:
+        if case.get('obs_only'):
+            c['obs_only'] = True
+    return out
+
+
 THEOREMS = ['C03_write_preserves_chain', 'C03_write_frames_others', 'C03_reachable_chain', 'C03_reachable_hierarchy_chain',
             'C03_trace_hypothesis_decidable', 'C03_hierarchy_pass_closes_superseded',
             'C03_hierarchy_pass_frame', 'C03_machine_applies_the_pass', 'C03_hierarchy_hypotheses_decidable',
@@ -13,7 +29,7 @@ RULE = ('seeded user programs under strategy=validity (blog shape with relations
         'one and in several transactions, repeated flushes and interleaved entities are frequent) are run on the real code; '
         'after EVERY flush, commit and rollback all version tables are read and the chain predicate (end = least larger '
         'transaction id of the same key, NULL for the newest) is evaluated on them; the model is replayed on the recorded '
-        'trace and compared step by step. Non-trivial: >= 2 commits and (key reuse or NULL set or >= 2 flushes).')
+        'trace and compared step by step; histories that switch options[\'versioning\'] off around a delete and re-insert the key later are judged on the tables alone (C03_O). Non-trivial: >= 2 commits and (key reuse or NULL set or >= 2 flushes).')
 ASSUMPTIONS = B.COMMON_ASSUMPTIONS + [
     'joined-table inheritance (one entity, several version tables) is not in the modelled shapes yet: each table id is '
     'covered by the theorem separately, the correspondence exercises flat classes only']
@@ -32,6 +48,29 @@ def gen_cases(rng, n, tier):
     inh = [c for c in B.all_cfgs('inh') if not c['null_delete'] and c['strategy'] == 'validity']
     for i in range(max(12, n // 12)):
         cases.append(dict(cfg=inh[i % len(inh)], prog=gen_hop_program(rng)))
+    # a row that disappears WITHOUT a DELETE version (versioning switched off for the transaction that deletes it) and
+    # whose key is inserted again later: the version left open is closed by the new INSERT (observation-only cases;
+    # added after ninth-round seeded change C03_9_insert_closes_delete_only was missed)
+    flat = [dict(shape='blog', strategy='validity', twin=False), dict(shape='blog', strategy='validity', twin=False, changes=True)]
+    for i in range(max(10, n // 30)):
+        cfg = inh[i % len(inh)] if i % 3 == 2 else flat[i % 2]
+        c = rng.choice([0, 1]) if cfg.get('shape') == 'inh' else 0
+        mk = (lambda: {'a': rng.choice([0, 1, 2]), 'pages': rng.choice([0, 1])}) if c == 1 else (lambda: {'a': rng.choice([0, 1, 2, 3])})
+        prog = [['add', c, 1, mk()], ['add', c, 2, mk()], ['commit']]
+        for rnd in range(rng.randint(1, 3)):
+            k = rng.choice([1, 2])
+            if rng.random() < 0.6:
+                prog += [['set', c, k, mk()], ['commit']]
+            prog += [['vswitch', False], ['del', c, k], ['commit'], ['vswitch', True]]
+            if rng.random() < 0.4:
+                prog += [['set', c, 3 - k, mk()], ['commit']]
+            prog += [['add', c, k, mk()]]
+            if rng.random() < 0.4:
+                prog += [['flush'], ['set', c, k, mk()]]
+            prog += [['commit']]
+            if rng.random() < 0.5:
+                prog += [['set', c, k, mk()], ['commit']]
+        cases.append(dict(cfg=cfg, prog=prog, obs_only=True))
     return cases
 
 
